@@ -66,9 +66,10 @@ def render(toks):
     return "".join(t["s"] for t in toks)
 
 
-def attr(k, v, t="s", f=False):
-    """f: removed from the stream by the view's attribute filter (only visible as exemplar label)"""
-    return {"k": k, "t": t, "v": v, "r": 0, "f": f, "n": 0}
+def attr(k, v, t="s", f=False, ill=False):
+    """f: removed from the stream by the view's attribute filter (only visible as exemplar label);
+    ill: ill-formed, the harness makes the real value invalid UTF-8"""
+    return {"k": k, "t": t, "v": v, "r": 0, "f": f, "n": 0, "ill": ill}
 
 
 def aset(*attrs):
@@ -86,8 +87,8 @@ def opts(scheme, noUnits=False, noSuffix=False, ns=(), noTarget=False, noScope=F
             "noScope": noScope, "resConst": resConst, "resKeys": list(resKeys)}
 
 
-def inst(id_, toks, kind, unit="", scope="sA", desc="d1"):
-    return {"id": id_, "scope": scope, "toks": list(toks), "unit": unit, "kind": kind, "desc": desc}
+def inst(id_, toks, kind, unit="", scope="sA", desc="d1", ill=False):
+    return {"id": id_, "scope": scope, "toks": list(toks), "unit": unit, "kind": kind, "desc": desc, "ill": ill}
 
 
 SCHEMES = ("legacy", "utf8")
@@ -117,10 +118,10 @@ def configs(tier):
     cfgs = []
 
     def add(name, optsl, templates, ases=None, recas=(1,), vals=(3,), res=RES1, maxinst=1, maxrec=1, maxscr=1, budget=None,
-            scopes=(), spans=(False,), mark=True):
+            scopes=(), spans=(False,), mark=True, maxpre=0, shut=False):
         cfgs.append(dict(name=name, opts=optsl, templates=templates, ases=ases or [[]], recas=list(recas), vals=list(vals),
                          res=res, maxinst=maxinst, maxrec=maxrec, maxscr=maxscr, budget=budget, scopes=list(scopes),
-                         spans=list(spans), mark=mark))
+                         spans=list(spans), mark=mark, maxpre=maxpre, shut=shut))
 
     # ---- names: token sequences x units x kinds x options
     alpha = [w("foo"), TOT, u("seconds"), sep("_"), sep(".")]
@@ -182,8 +183,8 @@ def configs(tier):
     add("infos", [opts(s, **o) for s in SCHEMES for o in iopts], templ, res=RES3, maxinst=2, maxrec=2, maxscr=1)
     # ---- scopes: a scope is (name, version, schema URL, attributes) but its labels carry name and version only.
     # No vinst marker here: series of equal instruments in scopes with equal labels are really identical.
-    sa2 = {"id": "sA2", "name": "sA", "version": "vsA", "url": "https://example.com/schema/2", "attrs": []}
-    sa3 = {"id": "sA3", "name": "sA", "version": "vsA", "url": "",
+    sa2 = {"id": "sA2", "name": "sA", "version": "vsA", "url": "https://example.com/schema/2", "attrs": [], "ill": ""}
+    sa3 = {"id": "sA3", "name": "sA", "version": "vsA", "url": "", "ill": "",
            "attrs": aset(attr([w("lib"), sep("."), w("kind")], "b"), attr([w("n")], "3", "i"))}
     templ = [inst(1, [w("foo")], "counter", scope="sA"), inst(2, [w("bar")], "gauge", scope="sA2"),
              inst(3, [w("foo")], "counter", scope="sA2"), inst(4, [w("baz")], "hist", scope="sB"),
@@ -208,6 +209,22 @@ def configs(tier):
     add("exemplars", [opts(s, **o) for s in SCHEMES for o in (eopts if th else eopts[:2])],
         [inst(1, [w("foo")], k, "s") for k in ekinds], ases=eases, recas=range(1, len(eases) + 1), vals=(3, 12),
         maxrec=2, maxscr=1, spans=(True, False) if th else (True,), budget=None if th else 1500)
+    # ---- lifecycle: 0..2 scrapes BEFORE the exporter is registered with a MeterProvider (nothing exposed, nothing
+    # remembered), MeterProvider.Shutdown and a scrape after it (nothing, or the last state)
+    lopts2 = [dict(), dict(noTarget=True), dict(resConst=True, resKeys=[1, 2]), dict(noScope=True)]
+    templ = [inst(1, [w("foo")], "counter", scope="sA"), inst(2, [w("bar")], "ogauge", scope="sB")]
+    add("lifecycle", [opts(s, **o) for s in SCHEMES for o in (lopts2 if th else lopts2[:3])], templ, res=RES3, vals=(2,),
+        maxinst=2, maxrec=2, maxscr=2, maxpre=2, shut=True)
+    # ---- illformed: inputs the SDK accepts although they are not valid UTF-8 (attribute value, description, meter
+    # name / version / scope attribute): never a panic, the well-formed rest of the scrape is exposed faithfully
+    badscope = lambda how: {"id": "sX" + how[0], "name": "sX", "version": "vsX", "url": "", "attrs": [], "ill": how}
+    iases = [[], aset(attr([w("k")], "v"), attr([w("u")], "ill", ill=True)), aset(attr([w("k")], "v"))]
+    templ = [inst(1, [w("foo")], "counter", scope="sA"), inst(2, [w("baddesc")], "gauge", scope="sA", ill=True),
+             inst(3, [w("inbadn")], "counter", scope="sXn"), inst(4, [w("inbadv")], "hist", scope="sXv"),
+             inst(5, [w("inbada")], "updown", scope="sXa"), inst(6, [w("bar")], "hist", scope="sB")]
+    add("illformed", [opts(s, **o) for s in SCHEMES for o in (dict(), dict(noScope=True))], templ, ases=iases, recas=(1, 2, 3),
+        vals=(2,), maxinst=2, maxrec=3 if th else 2, maxscr=2 if th else 1, scopes=[badscope("name"), badscope("version"), badscope("attr")],
+        budget=None if th else 1500)
     # ---- values: what is exposed equals what the SDK aggregated, per kind
     vkinds = ["counter", "updown", "gauge", "hist", "exphist", "fcounter", "ocounter", "ogauge", "fhist", "oupdown"]
     if th:
@@ -249,6 +266,23 @@ def fatal_class(stderr):
     if re.search(r"^panic: ", stderr, re.M):
         return "panic-in-gather"
     return None
+
+
+def race_reports(stderr):
+    """every race detector report whose stacks have exporter frames, as (site, text): site = the exporter functions
+    on top of the two conflicting accesses, e.g. 'Collect|createResourceAttributes' (narrow key for known findings)"""
+    out = []
+    for block in stderr.split("=================="):
+        if "WARNING: DATA RACE" not in block or "exporters/prometheus" not in block:
+            continue
+        tops = []
+        for acc in re.split(r"\n(?=(?:Previous )?(?:[Rr]ead|[Ww]rite|atomic [a-z]+) at )", block):
+            if not re.match(r"(?:Previous )?(?:[Rr]ead|[Ww]rite|atomic [a-z]+) at ", acc.strip()):
+                continue
+            m = re.search(r"exporters/prometheus\.(?:\(\*?\w+\)\.)?(\w+)", acc.split("\n\nGoroutine")[0])
+            tops.append(m.group(1) if m else "?")
+        out.append(("|".join(sorted(set(tops))) or "?", block.strip()[:6000]))
+    return out
 
 
 def run(ctx):
@@ -307,10 +341,10 @@ def run(ctx):
         for c in configs(ctx.tier):
             dfn = {"OPTS": tla(TSet(c["opts"])), "TEMPLATES": tla(TSet(c["templates"])), "ASES": tla(c["ases"]),
                    "RECAS": tla(TSet(c["recas"])), "VALS": tla(TSet(c["vals"])), "RES": tla(c["res"]), "SCOPES": tla(c["scopes"]),
-                   "SPANFLAGS": tla(TSet(c["spans"])), "MARK": tla(c["mark"]),
+                   "SPANFLAGS": tla(TSet(c["spans"])), "MARK": tla(c["mark"]), "MAXPRE": c["maxpre"], "ALLOWSHUT": tla(c["shut"]),
                    "MAXINST": c["maxinst"], "MAXREC": c["maxrec"], "MAXSCR": c["maxscr"]}
             r = ctx.tlc(S, "MC_PromExport", "MC_PromExport.cfg", defines=dfn, want_edges=True, name=c["name"], timeout=3000,
-                        coverage=(th and c["name"] == "conflicts"))
+                        coverage=(th and c["name"] == "lifecycle"))
             if r["zero_cov"]:
                 ctx.note_inconclusive("TLC %s: actions never taken: %s" % (c["name"], r["zero_cov"]))
             scen, nedges = leaves(r["edges_file"])
@@ -354,7 +388,7 @@ def run(ctx):
     ctx.extra["random_scenarios"] = 2 * n
     # ---- concurrency clause: scrapers || recorders (|| a late instrument); the same scenarios under -race as an
     # auxiliary monitor (the race build is cached by go between runs)
-    bins = [(binp, "conc", 12 if th else 4), (ctx.go_build("c18", race=True), "conc-race", 8 if th else 2)]
+    bins = [(binp, "conc", 12 if th else 4), (ctx.go_build("c18", race=True), "conc-race", 16 if th else 6)]
     trace = os.path.join(ctx.work, "trace-conc.ndjson")
     nscen = 0
     with open(trace, "w") as tf:
@@ -362,15 +396,26 @@ def run(ctx):
             for sch in SCHEMES:
                 part = os.path.join(ctx.work, "trace-%s-%s.ndjson" % (tag, sch))
                 resf = os.path.join(ctx.work, "%s-%s.json" % (tag, sch))
-                p = ctx.run([b, "conc", "-scheme", sch, "-n", str(nsc), "-out", part, "-res", resf], timeout=3000,
-                            ok_codes=(0, 2, 66), env={"GORACE": "halt_on_error=1 exitcode=66"})
-                if p.returncode != 0:
+                # under -race few scrapers per round (the detector remembers 4 accesses per word) and more scenarios
+                shape = ["-scrapers", "3", "-recorders", "4"] if tag == "conc-race" else []
+                p = ctx.run([b, "conc", "-scheme", sch, "-n", str(nsc), "-out", part, "-res", resf] + shape, timeout=3000,
+                            ok_codes=(0, 2, 66), env={"GORACE": "halt_on_error=0 exitcode=66"})
+                # the race detector does not stop the run: every distinct report with exporter frames is a violation
+                races = race_reports(p.stderr)
+                for site, text in races:
+                    ctx.violation({"dir": "conc", "dev": "none", "why": "data-race", "via": tag, "site": site},
+                                  replay={"scheme": sch, "report": text})
+                if p.returncode == 66 and not races:
+                    ctx.note_inconclusive("race detector report without exporter frames: %s" % p.stderr[-3000:])
+                    continue
+                if p.returncode == 2:
                     cls = fatal_class(p.stderr)
                     if cls is None:
                         ctx.note_inconclusive("conc harness died rc=%d: %s" % (p.returncode, p.stderr[-2000:]))
                         continue
-                    ctx.violation({"dir": "conc", "dev": "none", "why": cls, "via": tag},
-                                  replay={"scheme": sch, "stderr": p.stderr[-6000:]})
+                    if cls != "data-race":
+                        ctx.violation({"dir": "conc", "dev": "none", "why": cls, "via": tag},
+                                      replay={"scheme": sch, "stderr": p.stderr[-6000:]})
                     continue
                 res = absorb(resf)
                 nscen += res["executed"]
